@@ -1,9 +1,12 @@
 /-
-  Model of pgdump/relmap.go.  The `os` calls are a file-system parameter; ParsePGDatabase (another area)
+  Model of pgdump/relmap.go.  The `os` calls are a file-system parameter (`fs path` = the content `readRegularFile`
+  returns, `none` = its error return: a missing file or — since fixes/entry/02 — anything that is not a regular file;
+  on regular files it is `os.ReadFile`, which is what the families put there); ParsePGDatabase (another area)
   is a parameter of readAllRelMaps.  SystemCatalogNames is a parameter of the functions that use it (the
   driver passes the table generated from the code by executing it: Generated.Control.catalogNames).
 -/
 import PgVerif.Basic.Bytes
+import PgVerif.Model.Control
 namespace PgVerif.Model
 open PgVerif
 
@@ -31,19 +34,32 @@ def relMapLoop (data : Bytes) : Nat → Nat → M (List RelMapping)
     let rest ← relMapLoop data n (offset + 8)
     pure (⟨oid, filenode⟩ :: rest)
 
-/-- ParseRelMapFile (with fixes/control/09: a file of exactly 524 bytes is the PostgreSQL 16 layout — 64 slots, crc at
-520 — anything else of at least 512 bytes the 12–15 layout — 62 slots, crc at 504); `none` = error return -/
+/-- relMapIsV16 (fixes/control/21): which layout the image is in.  Fewer than 524 bytes → 12–15; more than 62 mappings →
+16; else the layout whose stored CRC-32C verifies over the bytes before it, the 16 one (520) tried first, then the
+12–15 one (504); when neither verifies the exact size decides.  `verifyCRC32C` is control.go's (Model/Control.lean). -/
+def relMapIsV16 (data : Bytes) (numMappings : Int) : M Bool := do
+  if data.length < 524 then return false
+  if numMappings > 62 then return true
+  let bodyV16 ← slice data 0 520
+  let crcV16 ← uN 4 data 520
+  if verifyCRC32C bodyV16 crcV16 then return true
+  let body ← slice data 0 504
+  let crc ← uN 4 data 504
+  if verifyCRC32C body crc then return false
+  return data.length == 524
+
+/-- ParseRelMapFile (with fixes/control/09 and 21: the PostgreSQL 16 layout — 64 slots, crc at 520 — when relMapIsV16
+says so, else the 12–15 layout — 62 slots, crc at 504); `none` = error return -/
 def parseRelMapFile (data : Bytes) : M (Option RelMapFile) := do
   if data.length < 512 then return none
   let magic ← uN 4 data 0
   if magic ≠ 0x592717 then return none
-  let maxMappings : Nat := if data.length = 524 then 64 else 62
   let numMappings := toSigned 32 (← uN 4 data 4)
+  let isV16 ← relMapIsV16 data numMappings
+  let maxMappings : Nat := if isV16 then 64 else 62
   if numMappings < 0 ∨ numMappings > maxMappings then return none
   let mappings ← relMapLoop data numMappings.toNat 8
-  -- crcOffset = 8 + maxMappings*8 = 504 or 520
-  let crcOffset := 8 + maxMappings * 8
-  let crc ← (if data.length ≥ crcOffset + 4 then uN 4 data crcOffset else pure 0 : M Nat)
+  let crc ← (if isV16 then uN 4 data 520 else uN 4 data 504 : M Nat)
   return some { magic, numMappings, mappings, crc }
 
 /-- (rm *RelMapFile) GetFilenode -/
